@@ -620,7 +620,7 @@ def rule_random_graph(F, R):
         flow.scan(fl, m['body'], {}, lambda x: x.get('k') == 'Call' and callee_name(x) in (G + 'generate_graph', G + 'read_graph'), found)
         ARGS = ('args',)
         fld = lambda n: ('field', ARGS, n)
-        unwrap = lambda x: ('call', 'std::option::Option::unwrap', (x,))
+        unwrap = lambda x: ('some_payload', x)
         V = unwrap(fld('vertices'))
         def poly(tm):
             if tm == V: return {1: Fraction(1)}
@@ -737,6 +737,13 @@ def emitted_templates(c, fn_prefix):
         seen.add(name)
         for x in walk(c.ithir[name]['body']):
             if x['k'] == 'Closure': todo.append(canon(x['def']))
+            # local functions used as values (`.map(shadow_clause)`) or called without having been inlined
+            if x['k'] == 'ZstLiteral' and 'fn' in x:
+                g = canon(x['fn'].get('res') or x['fn']['def'])
+                if g in c.ithir and g not in __import__('facts').baseline_fns(): todo.append(g)
+            if x['k'] == 'Call':
+                g = callee_name(x)
+                if g in c.ithir and g not in __import__('facts').baseline_fns(): todo.append(g)
     for name in sorted(seen):
         t = c.ithir[name]
         for x in walk(t['body']):
@@ -810,8 +817,61 @@ def rule_graph_writers(F, R):
                 visit(e['then'], ctx + [(fn, not neg)])
                 if e['else'] is not None: visit(e['else'], ctx + [(fn, neg)])
                 return
+        if e['k'] == 'Match' and e.get('source') == 'Normal' and strip(e['scrutinee'])['k'] == 'Tuple':
+            # match (args.dot, args.undirected) { (true, true) => .., (true, false) => .., (false, _) => .. }
+            flags = []
+            for f in strip(e['scrutinee'])['fields']:
+                g = strip(f)
+                flags.append(g.get('field_name') if g['k'] == 'Field' and g.get('field_name') in ('dot', 'undirected') else None)
+            if all(flags):
+                def bool_of(p):
+                    p = unwrap_pat(p)
+                    if p['k'] == 'Wild' or p['k'] == 'Binding': return None
+                    if p['k'] == 'Constant':
+                        v = str(p.get('value'))
+                        if 'true' in v or '0x01' in v: return True
+                        if 'false' in v or '0x00' in v: return False
+                    return 'bad'
+                ok_arms = True
+                for a in e['arms']:
+                    p = unwrap_pat(a['pat'])
+                    if a.get('guard') is not None or p['k'] not in ('Leaf', 'Wild'): ok_arms = False; break
+                if ok_arms:
+                    seen = []          # assignments already taken by earlier arms (first match wins)
+                    import itertools
+                    for a in e['arms']:
+                        p = unwrap_pat(a['pat'])
+                        want = [None] * len(flags)
+                        if p['k'] == 'Leaf':
+                            for sp in p['subs']: want[sp['field']] = bool_of(sp['pat'])
+                        if 'bad' in want: ok_arms = False; break
+                        mine = []
+                        for vals in itertools.product((True, False), repeat=len(flags)):
+                            if vals in seen: continue
+                            if all(w is None or w == v for w, v in zip(want, vals)):
+                                seen.append(vals); mine.append(vals)
+                        if not mine: continue
+                        # what this arm knows: the flags that have one value in every assignment it covers
+                        # (contexts are keyed like the nested-if form: `undirected` only matters under dot)
+                        cx_ = [(fl_, mine[0][i]) for i, fl_ in enumerate(flags) if all(v[i] == mine[0][i] for v in mine)]
+                        cx_ = [kv for kv in cx_ if not (kv[0] == 'undirected' and ('dot', False) in cx_)]
+                        visit(a['body'], ctx + cx_)
+                    if ok_arms: return
         if e['k'] == 'Match' and strip(e['scrutinee'])['k'] == 'Call' and callee_decl(strip(e['scrutinee'])) == 'std::iter::IntoIterator::into_iter':
             src = root_var(strip(e['scrutinee'])['args'][0])
+            # loop pattern: `edge` (fields .0 / .1 are used) or `(from, to)` (the components are named)
+            comp = {}
+            for m_ in walk(e['arms'][0]['body']):
+                if m_['k'] == 'Match' and m_.get('source') == 'ForLoopDesugar':
+                    for a_ in m_['arms']:
+                        p_ = unwrap_pat(a_['pat'])
+                        if p_['k'] == 'Variant' and p_['variant'] == 'Some' and p_['subs']:
+                            q_ = unwrap_pat(p_['subs'][0]['pat'])
+                            if q_['k'] == 'Leaf' and 'adt' not in q_:
+                                for sp in q_['subs']:
+                                    b_ = unwrap_pat(sp['pat'])
+                                    if b_['k'] == 'Binding': comp[b_['var']] = sp['field']
+                    break
             for x in walk(e):
                 if x['k'] == 'Call' and (callee_name(x) or '').endswith('write_fmt'):
                     tup = [y for y in walk(x) if y['k'] == 'Tuple' and len(y['fields']) == 2]
@@ -820,7 +880,8 @@ def rule_graph_writers(F, R):
                         flds = []
                         for f in tup[0]['fields']:
                             g = strip(f)
-                            flds.append((root_var(g['lhs']) if g['k'] == 'Field' else None, g.get('field') if g['k'] == 'Field' else None))
+                            if g['k'] in ('VarRef', 'UpvarRef') and g['var'] in comp: flds.append(('<edge>', comp[g['var']]))
+                            else: flds.append((root_var(g['lhs']) if g['k'] == 'Field' else None, g.get('field') if g['k'] == 'Field' else None))
                         try: text = engine_u.decode_template(tm[0]['value'])
                         except Exception: text = None
                         found.append((tuple(ctx), text, flds, src, x['loc']))
